@@ -178,6 +178,40 @@ def run(job: dict) -> dict:
             return result
 
         posix.Registry.read = read
+    if job.get('window'):
+        # interleaving: after every rename of this training's commit (posix Registry.close) another process loads the latest
+        # generation and applies it - it must see the previous generation or the complete new one, never a listed
+        # generation whose states are not in place yet
+        import pathlib
+        import subprocess
+
+        from forml.provider.registry.filesystem import posix
+
+        commit, windows = posix.Registry.close, []
+
+        def close(self, *args, **kwargs):
+            rename = pathlib.Path.rename
+
+            def observed(path, target):
+                done = rename(path, target)
+                with open(job['window'], encoding='utf-8') as fd:
+                    reader = json.load(fd)
+                reader['nonce'] = f"{reader['nonce']}k{len(windows) + 1}"
+                reader['out'] = f"{reader['out']}.w{len(windows) + 1}"
+                with open(reader['out'] + '.job', 'w', encoding='utf-8') as fd:
+                    json.dump(reader, fd)
+                proc = subprocess.run([sys.executable, '-m', 'vlib.lifecycle', reader['out'] + '.job'], env=dict(os.environ),
+                                      capture_output=True, text=True, timeout=600, check=False)
+                windows.append({'rc': proc.returncode, 'out': reader['out'], 'nonce': reader['nonce'], 'renamed': os.path.basename(str(target))})
+                return done
+
+            pathlib.Path.rename = observed
+            try:
+                return commit(self, *args, **kwargs)
+            finally:
+                pathlib.Path.rename = rename
+
+        posix.Registry.close = close
     adir = projgen.directory(job['registry'])
     instance = asset.Instance(job['project'], job['release'], job.get('generation'), adir)
     feed = SymFeed(job['nonce'])
@@ -185,6 +219,8 @@ def run(job: dict) -> dict:
     result: dict = {'action': job['action'], 'error': None}
     if job.get('race'):
         result['race_fired'] = fired
+    if job.get('window'):
+        result['windows'] = windows
     try:
         if job['action'] in ('train', 'apply', 'perftrack'):
             runner = daskrunner.Runner(instance, feed, SymSink(sinkfile), scheduler=job.get('scheduler', 'synchronous'))
